@@ -258,6 +258,8 @@ pub struct ClientPlan {
     pub close_code: Option<u64>,
     /// close abruptly at this time regardless of progress
     pub abort_at_us: Option<u64>,
+    /// the *server* application closes this client's connection at this time
+    pub server_close_at_us: Option<u64>,
 }
 
 #[derive(Clone, Debug)]
